@@ -152,7 +152,7 @@ def compile_tu(job):
     text = gen_tu(n, headed)
     with open(src, 'w') as f:
         f.write(text)
-    cmd = [cxx, '-std=' + std, '-fsyntax-only', '-I' + facts.WITNESS_DIR, '-DFFSM2_ENABLE_SERIALIZATION=',
+    cmd = [cxx, '-std=' + std, '-fsyntax-only'] + (['-fno-crash-diagnostics'] if cxx.startswith('clang') else []) + ['-I' + facts.WITNESS_DIR, '-DFFSM2_ENABLE_SERIALIZATION=',
            '-ftemplate-depth=2048'] + facts.variant_flags(variant) + [src]
     cmd.insert(1, '-ferror-limit=0' if cxx.startswith('clang') else '-fmax-errors=0')
     p = subprocess.run(cmd, stdout=subprocess.PIPE, stderr=subprocess.STDOUT, universal_newlines=True)
